@@ -7,7 +7,14 @@ package main
 import (
 	"bytes"
 	"crypto/ecdsa"
+	"crypto/ed25519"
+	"crypto/elliptic"
+	crand "crypto/rand"
+	"crypto/rsa"
+	"crypto/x509"
+	"encoding/base64"
 	"encoding/hex"
+	"encoding/pem"
 	"fmt"
 	"math"
 	"math/big"
@@ -192,6 +199,39 @@ func (w *worker) honestSet() []honest {
 		out = append(out, honest{name: fmt.Sprintf("subnets/%s(%d chars)", s[:6], len(s)), b: []byte(s), targets: []target{{entry: eSubnetsStr, hists: []int{0}}, {entry: eHandshakeSubnets, hists: []int{0}}}})
 	}
 	out = append(out, honest{name: "enr/with-subnets", b: enrWithSubnets(), targets: []target{{entry: eSubnetsEntry, hists: []int{0}}}})
+	// (fresh key material per run: the behaviour class is what is recorded, the bytes of a violating
+	// input are stored in its artefact)
+	// public keys as a peer or the registry contract may supply them: base64(PEM(...)) of an RSA key
+	// (PKIX, what operators register), and of well-formed keys of other algorithms / encodings
+	pemB64 := func(typ string, der []byte) []byte {
+		return []byte(base64.StdEncoding.EncodeToString(pem.EncodeToMemory(&pem.Block{Type: typ, Bytes: der})))
+	}
+	rsaKey, err := rsa.GenerateKey(crand.Reader, 2048)
+	must(err)
+	rsaPKIX, err := x509.MarshalPKIXPublicKey(&rsaKey.PublicKey)
+	must(err)
+	ecKey, err := ecdsa.GenerateKey(elliptic.P256(), crand.Reader)
+	must(err)
+	ecPKIX, err := x509.MarshalPKIXPublicKey(&ecKey.PublicKey)
+	must(err)
+	edPub, _, err := ed25519.GenerateKey(crand.Reader)
+	must(err)
+	edPKIX, err := x509.MarshalPKIXPublicKey(edPub)
+	must(err)
+	for _, k := range []struct {
+		name string
+		b    []byte
+	}{
+		{"rsa-pkix", pemB64("RSA PUBLIC KEY", rsaPKIX)},
+		{"ecdsa-p256-pkix", pemB64("PUBLIC KEY", ecPKIX)},
+		{"ed25519-pkix", pemB64("PUBLIC KEY", edPKIX)},
+		{"rsa-pkcs1", pemB64("RSA PUBLIC KEY", x509.MarshalPKCS1PublicKey(&rsaKey.PublicKey))},
+		{"pem-without-base64", pem.EncodeToMemory(&pem.Block{Type: "RSA PUBLIC KEY", Bytes: rsaPKIX})},
+		{"base64-of-garbage", []byte(base64.StdEncoding.EncodeToString([]byte("not a pem block")))},
+		{"empty", nil},
+	} {
+		out = append(out, honest{name: "senderkey/" + k.name, b: k.b, targets: []target{{entry: eSenderKey, hists: []int{0}}}})
+	}
 	return out
 }
 
@@ -284,7 +324,8 @@ func (w *worker) stageMutations() {
 					}
 					res := w.eval(c)
 					okClass := res.Class == "accept" || res.Class == "ok" || res.Class == "panic" || res.Class == "panic(history)" ||
-						strings.HasPrefix(res.Class, "ok") || (h.name == "event/data" && t.entry == eSSV)
+						strings.HasPrefix(res.Class, "ok") || (h.name == "event/data" && t.entry == eSSV) ||
+						(strings.HasPrefix(h.name, "senderkey/") && h.name != "senderkey/rsa-pkix") // well-formed keys of other kinds are bases for mutation, not accepted inputs
 					if !okClass {
 						w.fatal("honest encoding %s on %s is not accepted: %s", h.name, t.entry, res.Class)
 					}
